@@ -144,6 +144,7 @@ class _Track(object):
         self.held = {}
         self.disabled = {}
         self.fontheld = 0
+        self.lastren = {}        # layer -> the name the last successful renaming in it led to
 
     def union(self):
         u = set()
@@ -170,6 +171,7 @@ class _Track(object):
             self.layers[op[1]].discard(op[2])
             self.layers[op[1]].add(op[3])
             self.seen.add(op[3])
+            self.lastren[op[1]] = op[3]
         elif k == "newLayer":
             self.layers.setdefault(op[1], set())
         elif k == "delLayer":
@@ -301,10 +303,16 @@ def _gen_held_glyph_op(rng, tr, pool, L):
             return ["delGlyph", L, rng.choice(cands), "layer"]
         return ["delGlyph", L, rng.choice(small), "layer"]
     cands = [x for x in here if x in small] or here
+    last = tr.lastren.get(L)
+    if last in here and rng.random() < 0.4:
+        # go on renaming the glyph that was renamed last: a chain a -> b -> c inside the hold
+        fresh = [x for x in POOL + GHOSTS if x not in tr.seen and x not in tr.union()]
+        if fresh:
+            return ["rename", L, last, rng.choice(fresh)]
     if cands and rng.random() < 0.95:
         old = rng.choice(cands)
         fresh = [x for x in pool if x not in tr.seen]
-        new = _weighted_name(rng, [(small, 5), (fresh, 2), (pool, 1)], pool)
+        new = _weighted_name(rng, [(small, 5), (fresh, 3), (pool, 1)], pool)
         return ["rename", L, old, new]
     return ["rename", L, rng.choice(small), rng.choice(small)]
 
@@ -477,7 +485,23 @@ def gen_held_case(rng, maxlen):
         op = ["holdLayer", L]
         ops.append(op)
         tr.apply(op)
-        for _ in range(rng.randint(1, max(2, maxlen // 2))):
+        if tr.layers[L] and rng.random() < 0.3:
+            # a pure chain of renamings x -> f1 -> f2 (-> f3) with other operations in between
+            x = rng.choice(sorted(tr.layers[L]))
+            fresh = [n for n in POOL + GHOSTS + ["f1", "f2", "f3"] if n not in tr.seen and n not in tr.union()]
+            rng.shuffle(fresh)
+            for nxt in fresh[:rng.randint(2, 3)]:
+                op = ["rename", L, x, nxt]
+                ops.append(op)
+                tr.apply(op)
+                x = nxt
+                if rng.random() < 0.4:
+                    others = [n for n in pool if n != x and n not in fresh]
+                    if others:
+                        op = rng.choice([["newGlyph", L, rng.choice(others), "layer"], ["delGlyph", L, rng.choice(others), "layer"]])
+                        ops.append(op)
+                        tr.apply(op)
+        for _ in range(rng.randint(0 if len(ops) > 2 and ops[-1][0] != "holdLayer" else 1, max(2, maxlen // 2))):
             if L not in tr.layers:
                 break
             q = rng.random()
